@@ -1,14 +1,19 @@
 package main
 
 // Retention-point census: a mechanical cross-check of the model's retention-point table against
-// the tree under test ($VERIF_REPO). Every statement of the anchored files that stores a value
-// containing a byte slice ([]byte, net.IP, net.HardwareAddr, a view type, or a struct/slice/map
-// of those) into memory that can outlive the call — a field reached through a pointer, map or
-// slice, a package variable, a map element, a channel, a goroutine — is a "site", identified by
-// file:function:Type.field (no line numbers, no variable names). Every site must be listed in
-// censusTable (census_table.go) with the retention point of the Coq model that covers it or the
-// reason why it cannot hold a packet view; a site that is not listed is reported as
-// `viol retention-point-not-modelled`, so a new retention point cannot silently escape the model.
+// the tree under test ($VERIF_REPO). A "site" is a statement of the anchored files that stores a value
+// containing a byte slice ([]byte, net.IP, net.HardwareAddr, a view type, or a struct/slice/map of
+// those) into a field, an element, a composite literal, a channel or a goroutine, or an exported
+// function handing such a value out by value. Sites whose right-hand side is visibly a fresh copy
+// (CopyMAC/CopyIP/CopyBytes/dupBytes/dupMAC, make, append to an empty slice, AsSlice/Mask/To16,
+// a []byte(string) conversion, nil) never count: removing such a copy makes the site appear.
+//
+// Sites are keyed by package + kind + Type.field WITH A MULTIPLICITY (how many such statements the
+// package has in the files looked at); file and enclosing function are only reported as information.
+// Moving a statement to another function or file of the package (extract / inline function, helper
+// files) therefore changes nothing; a (package, Type.field) pair that is not in censusTable, or more
+// statements of a pair than the table allows, is reported as
+// `viol retention-point-not-modelled`; fewer statements than listed is only a statistic.
 //
 // Types are resolved with go/types; imports are satisfied by a stub importer (package net with
 // IP/HardwareAddr/IPMask as named []byte, everything else empty): the classification only needs
@@ -107,9 +112,10 @@ func typeName(t types.Type) string {
 
 type census struct {
 	info  *types.Info
+	pkg   string // package directory: the unit of the multiplicity
 	file  string
 	fn    string
-	sites map[string]string // key -> example position
+	sites map[string][]string // key -> where (function and position of every statement)
 	fset  *token.FileSet
 }
 
@@ -146,10 +152,72 @@ func (c *census) dest(e ast.Expr) (string, bool) {
 }
 
 func (c *census) add(kind, what string, pos token.Pos) {
-	key := c.file + ":" + c.fn + ":" + kind + what
-	if _, ok := c.sites[key]; !ok {
-		c.sites[key] = c.fset.Position(pos).String()
+	key := c.pkg + ":" + kind + what
+	c.sites[key] = append(c.sites[key], c.file+" "+c.fn+" ("+c.fset.Position(pos).String()+")")
+}
+
+var copyFuncs = map[string]bool{"CopyMAC": true, "CopyIP": true, "CopyBytes": true, "dupBytes": true, "dupMAC": true, "dup": true,
+	"make": true, "AsSlice": true, "Mask": true, "To16": true, "To4": true, "CIDRMask": true}
+
+// fresh: is the expression visibly newly allocated memory (never a view of a packet or of a table)?
+func (c *census) fresh(e ast.Expr) bool {
+	switch x := e.(type) {
+	case *ast.ParenExpr:
+		return c.fresh(x.X)
+	case *ast.Ident:
+		return x.Name == "nil"
+	case *ast.CompositeLit:
+		// a literal slice / array of bytes; struct literals are looked at field by field elsewhere
+		if t := c.info.TypeOf(x); t != nil {
+			_, isStruct := t.Underlying().(*types.Struct)
+			return !isStruct
+		}
+	case *ast.CallExpr:
+		name := ""
+		switch f := x.Fun.(type) {
+		case *ast.Ident:
+			name = f.Name
+		case *ast.SelectorExpr:
+			name = f.Sel.Name
+		case *ast.ArrayType: // []byte(s): a copy when s is a string
+			if len(x.Args) == 1 {
+				if t := c.info.TypeOf(x.Args[0]); t != nil {
+					if b, ok := t.Underlying().(*types.Basic); ok && b.Info()&types.IsString != 0 {
+						return true
+					}
+				}
+			}
+			return false
+		}
+		if copyFuncs[name] {
+			return true
+		}
+		if name == "append" && len(x.Args) > 0 {
+			// append to an empty / nil slice copies its arguments' elements (byte elements: a copy of the bytes)
+			if t := c.info.TypeOf(x); t != nil {
+				if sl, ok := t.Underlying().(*types.Slice); ok {
+					if b, ok := sl.Elem().Underlying().(*types.Basic); ok && (b.Kind() == types.Byte || b.Kind() == types.Uint8) {
+						return c.fresh(x.Args[0]) || isEmptyLit(x.Args[0])
+					}
+				}
+			}
+		}
 	}
+	return false
+}
+
+func isEmptyLit(e ast.Expr) bool {
+	switch x := e.(type) {
+	case *ast.CompositeLit:
+		return len(x.Elts) == 0
+	case *ast.CallExpr: // []byte(nil)
+		if len(x.Args) == 1 {
+			if id, ok := x.Args[0].(*ast.Ident); ok && id.Name == "nil" {
+				return true
+			}
+		}
+	}
+	return false
 }
 
 func (c *census) walk(body ast.Node) {
@@ -159,10 +227,13 @@ func (c *census) walk(body ast.Node) {
 			if s.Tok == token.DEFINE {
 				return true
 			}
-			for _, l := range s.Lhs {
+			for i, l := range s.Lhs {
 				t := c.info.TypeOf(l)
 				if t == nil || !holdsBytes(t, map[types.Type]bool{}) {
 					continue
+				}
+				if len(s.Rhs) == len(s.Lhs) && c.fresh(s.Rhs[i]) {
+					continue // stores a fresh copy
 				}
 				if d, ext := c.dest(l); ext {
 					c.add("", d, l.Pos())
@@ -192,7 +263,11 @@ func (c *census) walk(body ast.Node) {
 				} else if i < st.NumFields() {
 					name, ft = st.Field(i).Name(), st.Field(i).Type()
 				}
-				if ft != nil && holdsBytes(ft, map[types.Type]bool{}) {
+				val := el
+				if kv, ok := el.(*ast.KeyValueExpr); ok {
+					val = kv.Value
+				}
+				if ft != nil && holdsBytes(ft, map[types.Type]bool{}) && !c.fresh(val) {
 					c.add("lit ", typeName(t)+"."+name, el.Pos())
 				}
 			}
@@ -235,8 +310,8 @@ func (c *census) walk(body ast.Node) {
 }
 
 // runCensus returns every site of the tree.
-func runCensus(repo string) (map[string]string, error) {
-	sites := map[string]string{}
+func runCensus(repo string) (map[string][]string, error) {
+	sites := map[string][]string{}
 	fset := token.NewFileSet()
 	imp := &stubImporter{pkgs: map[string]*types.Package{}}
 	for _, d := range censusDirs {
@@ -293,7 +368,7 @@ func runCensus(repo string) (map[string]string, error) {
 					if fd.Recv != nil && len(fd.Recv.List) > 0 {
 						name = typeName(info.TypeOf(fd.Recv.List[0].Type)) + "." + name
 					}
-					c := &census{info: info, file: rel, fn: name, sites: sites, fset: fset}
+					c := &census{info: info, pkg: d.dir, file: rel, fn: name, sites: sites, fset: fset}
 					c.walk(fd.Body)
 					// the way out: exported functions whose result, handed over by value, holds byte slices
 					if fd.Name.IsExported() && fd.Type.Results != nil {
@@ -335,19 +410,28 @@ func checkCensus(r *lib.Run) {
 	sort.Strings(keys)
 	if os.Getenv("C10_CENSUS_DUMP") != "" {
 		for _, k := range keys {
-			fmt.Fprintf(os.Stderr, "%s\t%s\t%s\n", k, censusTable[k], sites[k])
+			fmt.Fprintf(os.Stderr, "%s\t%d\t%s\t%s\n", k, len(sites[k]), censusTable[k].note, strings.Join(sites[k], "; "))
 		}
 	}
 	for _, k := range keys {
-		v, ok := censusTable[k]
+		ent, ok := censusTable[k]
+		n := len(sites[k])
 		switch {
 		case !ok:
-			r.Viol("retention-point-not-modelled", "a statement that can retain a byte slice is not in the C10 retention table: "+k+" ("+sites[k]+")", "")
-			r.Stat("census.unlisted", 1)
-		case strings.HasPrefix(v, "RP_") || strings.HasPrefix(v, "hunt"):
-			r.Stat("census.modelled", 1)
+			r.Viol("retention-point-not-modelled", fmt.Sprintf("statements that can retain a byte slice, of a kind the C10 retention table does not list for this file: %s, in %s", k, strings.Join(sites[k], "; ")), "")
+			r.Stat("census.unlisted", int64(n))
+		case n > ent.n:
+			r.Viol("retention-point-not-modelled", fmt.Sprintf("%d statements %s, the C10 retention table covers %d: %s", n, k, ent.n, strings.Join(sites[k], "; ")), "")
+			r.Stat("census.unlisted", int64(n-ent.n))
 		default:
-			r.Stat("census.not_a_packet_view", 1)
+			if n < ent.n {
+				r.Stat("census.fewer_than_listed", int64(ent.n-n)) // code was removed or moved to a listed place: harmless
+			}
+			if strings.HasPrefix(ent.note, "RP_") || strings.HasPrefix(ent.note, "hunt") || strings.HasPrefix(ent.note, "out:") {
+				r.Stat("census.modelled", int64(n))
+			} else {
+				r.Stat("census.not_a_packet_view", int64(n))
+			}
 		}
 	}
 	for k := range censusTable {
@@ -355,5 +439,9 @@ func checkCensus(r *lib.Run) {
 			r.Stat("census.table_entry_without_site", 1) // a refactor moved or removed it: harmless
 		}
 	}
-	r.Stat("census.sites", int64(len(keys)))
+	total := 0
+	for _, k := range keys {
+		total += len(sites[k])
+	}
+	r.Stat("census.sites", int64(total))
 }
